@@ -1,0 +1,223 @@
+//! Runtime-verification hooks (only compiled with `--cfg penguin_rs_verif`).
+//!
+//! Nothing in this module changes the behaviour of the multiplexor. It offers
+//! - a process-global observer that is called at a few interesting points of
+//!   the flow-control code (the callback may block, which is how an external
+//!   harness imposes a schedule or injects delays),
+//! - read-only accessors for otherwise private state, and
+//! - a way to build a `MuxStream` that is not attached to a connection task.
+//
+// SPDX-License-Identifier: Apache-2.0 OR GPL-3.0-or-later
+
+use crate::loom::{Arc, AtomicBool, AtomicU32, AtomicWaker, Ordering};
+use crate::ws::Message;
+use crate::{EstablishedStreamData, MuxStream, Multiplexor};
+use bytes::Bytes;
+use std::sync::RwLock;
+use tokio::sync::mpsc;
+
+/// What happened
+#[derive(Clone, Copy, Debug, PartialEq, Eq, Hash)]
+pub enum Kind {
+    /// A writer is about to check whether the stream is closed for writing
+    WritePollBegin,
+    /// A writer found the stream closed for writing and will fail
+    WriteRefusedClosed,
+    /// A writer found the stream open for writing (before looking at the credit)
+    WriteAllowedSeen,
+    /// A writer loaded a send credit of zero (before registering its waker)
+    CreditSeenZero,
+    /// A writer registered its waker (before returning `Pending`)
+    WakerRegistered,
+    /// A writer took one unit of credit, `left` remain
+    CreditTaken {
+        /// credit remaining after this unit was taken
+        left: u32,
+    },
+    /// The connection task added `n` units of credit (before waking the writer)
+    AckApplied {
+        /// number of units
+        n: u32,
+    },
+    /// The connection task woke the writer after an `Acknowledge`
+    AckWoke,
+    /// The connection task closed the stream for writing (before waking the writer)
+    WriteDisallowed,
+    /// The connection task woke the writer after closing the stream for writing
+    DisallowWoke,
+    /// The reader took one `Push` frame out of the receive queue
+    FrameConsumed,
+    /// The connection task found the receive queue of a flow full
+    WindowOverrun,
+}
+
+/// One observed step
+#[derive(Clone, Copy, Debug, PartialEq, Eq, Hash)]
+pub struct Event {
+    /// Identifies the stream incarnation (address of its shared credit cell)
+    /// or, for `WindowOverrun`, the endpoint (address of its flow table)
+    pub key: usize,
+    /// Flow ID if known at the call site, 0 otherwise
+    pub flow_id: u32,
+    /// What happened
+    pub kind: Kind,
+}
+
+/// Observer callback type
+pub type Observer = std::sync::Arc<dyn Fn(&Event) + Send + Sync>;
+
+static OBSERVER: RwLock<Option<Observer>> = RwLock::new(None);
+
+/// Install or remove the process-global observer
+pub fn set_observer(observer: Option<Observer>) {
+    *OBSERVER.write().unwrap_or_else(std::sync::PoisonError::into_inner) = observer;
+}
+
+#[inline]
+pub(crate) fn emit(key: usize, flow_id: u32, kind: Kind) {
+    let observer = OBSERVER
+        .read()
+        .unwrap_or_else(std::sync::PoisonError::into_inner)
+        .clone();
+    if let Some(observer) = observer {
+        observer(&Event { key, flow_id, kind });
+    }
+}
+
+#[inline]
+pub(crate) fn key_of(cell: &Arc<AtomicU32>) -> usize {
+    Arc::as_ptr(cell) as usize
+}
+
+impl<R> Multiplexor<R> {
+    /// Number of entries in the flow table
+    #[must_use]
+    pub fn verif_flow_count(&self) -> usize {
+        self.flows.read().len()
+    }
+
+    /// Flow IDs currently in the flow table
+    #[must_use]
+    pub fn verif_flow_ids(&self) -> std::vec::Vec<u32> {
+        self.flows.read().keys().copied().collect()
+    }
+
+    /// Key used in endpoint-level events
+    #[must_use]
+    pub fn verif_key(&self) -> usize {
+        Arc::as_ptr(&self.flows) as usize
+    }
+}
+
+impl MuxStream {
+    /// Flow ID of this stream
+    #[must_use]
+    pub const fn verif_flow_id(&self) -> u32 {
+        self.flow_id
+    }
+
+    /// Key used in stream-level events
+    #[must_use]
+    pub fn verif_key(&self) -> usize {
+        key_of(&self.psh_send_remaining)
+    }
+
+    /// Current send credit
+    #[must_use]
+    pub fn verif_send_credit(&self) -> u32 {
+        self.psh_send_remaining.load(Ordering::Acquire)
+    }
+
+    /// Whether the stream is closed for writing
+    #[must_use]
+    pub fn verif_write_closed(&self) -> bool {
+        self.finish_sent.load(Ordering::Acquire)
+    }
+
+    /// Acknowledgement threshold in use
+    #[must_use]
+    pub const fn verif_rwnd_threshold(&self) -> u32 {
+        self.rwnd_threshold
+    }
+}
+
+/// The connection task's handle on a stream built by [`standalone_stream`]
+#[derive(Debug)]
+pub struct StreamCtl {
+    data: EstablishedStreamData,
+}
+
+impl StreamCtl {
+    /// What the connection task does on `Acknowledge`
+    pub fn acknowledge(&self, n: u32) {
+        self.data.acknowledge(n);
+    }
+
+    /// What the connection task does when the flow is closed
+    pub fn disallow_write(&self) -> bool {
+        self.data.disallow_write()
+    }
+
+    /// What the connection task does on `Push`; `false` if the queue is full or closed
+    pub fn push(&self, data: Bytes) -> bool {
+        self.data
+            .sender
+            .as_ref()
+            .is_some_and(|sender| sender.try_send(data).is_ok())
+    }
+
+    /// What the connection task does on `Finish`
+    pub fn finish(&mut self) {
+        self.data.disallow_read();
+    }
+}
+
+/// Everything the connection task would hold for one stream
+#[derive(Debug)]
+pub struct Standalone {
+    /// The application's end
+    pub stream: MuxStream,
+    /// The connection task's end
+    pub ctl: StreamCtl,
+    /// Messages the stream queued for sending
+    pub tx_msg_rx: mpsc::UnboundedReceiver<Message>,
+    /// Notifications of dropped streams
+    pub dropped_flows_rx: mpsc::UnboundedReceiver<u32>,
+}
+
+/// Build a `MuxStream` exactly as the connection task does, but attached to nothing
+#[must_use]
+pub fn standalone_stream(flow_id: u32, credit: u32, rwnd: u32, threshold: u32) -> Standalone {
+    let (rx_frame_tx, rx_frame_rx) = mpsc::channel(rwnd as usize);
+    let (tx_msg_tx, tx_msg_rx) = mpsc::unbounded_channel();
+    let (dropped_flows_tx, dropped_flows_rx) = mpsc::unbounded_channel();
+    let finish_sent = Arc::new(AtomicBool::new(false));
+    let psh_send_remaining = Arc::new(AtomicU32::new(credit));
+    let writer_waker = Arc::new(AtomicWaker::new());
+    let data = EstablishedStreamData {
+        sender: Some(rx_frame_tx),
+        finish_sent: finish_sent.clone(),
+        psh_send_remaining: psh_send_remaining.clone(),
+        writer_waker: writer_waker.clone(),
+    };
+    let stream = MuxStream {
+        rx_frame_rx,
+        flow_id,
+        dest_host: Bytes::new(),
+        dest_port: 0,
+        finish_sent,
+        psh_send_remaining,
+        psh_recvd_since: 0,
+        writer_waker,
+        buf: Bytes::new(),
+        tx_msg_tx,
+        dropped_flows_tx,
+        rwnd_threshold: threshold,
+    };
+    Standalone {
+        stream,
+        ctl: StreamCtl { data },
+        tx_msg_rx,
+        dropped_flows_rx,
+    }
+}
